@@ -19,7 +19,8 @@ def main():
     with seams.quiet():
         sa = SC.StandardCombi.restore_from_file("mem://child")
         P = query_points(req["rk"], req["a"], req["b"], req["npts"])
-        vals = [[float(x).hex() for x in row] for row in sa(P)] if P else []
+        import copy
+        vals = [[float(x).hex() for x in row] for row in copy.deepcopy(sa)(P)] if P else []
         ret = sa.continue_adaptive_refinement(tol=-1.0, max_evaluations=req["final"])
         snap = snapshot_of(sa, req["strategy"], ret)
     sys.stdout.write("\n@@SNAP@@" + json.dumps({"snap": snap, "vals": vals}) + "\n")
